@@ -91,14 +91,15 @@ func VerifC12LinkedLogParse() {
 		var e OffsetAndSizeAndSlot
 		long := verifChoice("long", 2) == 1
 		if long {
-			buf = append(buf, make([]byte, 31-n)...) // 31 > 3*MaxVarintLen64: rejected by length
+			// 40 bytes: longer than any encoding (3 uvarints of at most 10 bytes + flags)
+			buf = append(buf, make([]byte, 40-n)...)
 		}
 		err := e.FromBytes(buf)
 		if long {
 			verifAssert(err != nil, "C12.linkedlog.parse: FromBytes accepted an over-long buffer")
 		}
 		if err == nil {
-			verifAssert(len(e.Bytes()) <= n, "C12.linkedlog.parse: FromBytes read more than the buffer holds")
+			verifAssert(len(e.Bytes()) <= len(buf), "C12.linkedlog.parse: FromBytes read more than the buffer holds")
 			verifReach("parse-ok")
 		} else {
 			verifReach("parse-error")
